@@ -1,5 +1,7 @@
 import OtelVerif.Common.Line
 import OtelVerif.Model.C13
+import OtelVerif.Model.C13Faithful
+import OtelVerif.Gen.ConfigSchemas
 /-! driver for C13: models `c13-walk` (validation walk), `c13-refs` (reference checks), `c13-dec` (strict decode) -/
 open OtelVerif OtelVerif.Line OtelVerif.C13
 
@@ -244,6 +246,50 @@ def showObj (o : Obj) : String :=
   let items := sortStrs (o.map (fun p => p.1 ++ ":" ++ p.2))
   if items.isEmpty then "-" else ",".intercalate items
 
+/-- insert a written leaf into a configuration map value -/
+partial def insertVal (v : Val) (path : List String) (x : Val) : Val :=
+  match path with
+  | [] => x
+  | k :: rest =>
+    let kvs := match v with
+      | .map kvs => kvs
+      | _ => []
+    match kvs.find? (fun p => p.1 == k) with
+    | some (_, sub) => .map (kvs.map (fun p => if p.1 == k then (k, insertVal sub rest x) else p))
+    | none => .map (kvs ++ [(k, insertVal (.map []) rest x)])
+
+def splitPath (s : String) : List String := if s.isEmpty then [] else s.splitOn "::"
+
+def showEV : Option EV → String
+  | some .redacted => "R"
+  | some (.val (.scalar n)) => toString n
+  | some (.val _) => "M"
+  | some .nil => "nil"
+  | some (.map _) => "M"
+  | none => "none"
+
+/-- `op faith comp=<hex section/type> w=<hexpath>:<id>,… q=<hexpath>,…`: decode the written leaves onto the
+regenerated factory default of the component's regenerated schema, encode, and show the queried leaves -/
+def faithOp (toks : List String) : String :=
+  match (kv toks "comp").bind unhex, kv toks "w", kv toks "q" with
+  | some comp, some w, some q =>
+    match Gen.ConfigSchemas.components.find? (fun c => c.1 == comp) with
+    | none => "obs bad-op unknown-component"
+    | some (_, S, d) =>
+      let written := (parsePairs w).filterMap fun p =>
+        match unhex p.1, p.2.toNat? with
+        | some path, some id => some (splitPath path, Val.scalar id)
+        | _, _ => none
+      let v := written.foldl (fun acc p => insertVal acc p.1 p.2) (Val.map [])
+      match decodeV S d v with
+      | none => "obs shown decode-failed"
+      | some t =>
+        let e := encodeV S t
+        let qs := if q == "-" then [] else q.splitOn ","
+        let items := sortStrs (qs.map fun hp => hp ++ ":" ++ showEV (evGet e (splitPath ((unhex hp).getD ""))))
+        "obs shown " ++ (if items.isEmpty then "-" else ",".intercalate items)
+  | _, _, _ => "obs bad-op"
+
 def loadHandler : Handler LS where
   init := {}
   onOp := fun s toks =>
@@ -261,6 +307,7 @@ def loadHandler : Handler LS where
         | some o => (s, ["obs eff " ++ showObj o])
         | none => (s, ["obs bad-op"])
       | _, _, _ => (s, ["obs bad-op"])
+    | "faith" :: rest => (s, [faithOp rest])
     | _ => (s, ["obs bad-op"])
   onObs := fun s toks =>
     match toks with
